@@ -10,7 +10,7 @@ LEVEL = 'model_checking'
 RULE = ('every program t(..) :- [Gv = Goal,] Builtin for Builtin in {call(G), call(G\',Extra..) for every split of '
         'the goal\'s arguments into carried and extra arguments (<= 2 extra; for the 12- and 6-argument predicates every split, i.e. call/1 .. call/13; and call(call(G,A..),B..) with extra arguments at both levels for every split), once(G), \\+ call(G), findall(T,G,L) for 6 templates, '
         'each optionally followed by a continuation goal or used twice in a row on the same goal term} x goal in {atoms and compound goals with 0/1/2 solutions '
-        'over compiled facts, a rule, dynamic facts, an undefined predicate} x goal written inline, arriving in a '
+        'over compiled facts, a rule, dynamic facts, a predicate with both compiled clauses and a dynamic fact, an undefined predicate} x goal written inline, arriving in a '
         'variable bound at run time, or through a chain of two variables aliased before the goal is bound [thorough: x one level of nesting of the builtins inside each other], each '
         'queried with unbound and bound arguments (on a new engine and on an engine that was used and cleared before the program is loaded) and compared answer by answer with RefProlog; plus X = Y and '
         'X \\= Y as goals for every pair of printable terms of depth <=1 over 2 variables. Through the Python API the SAME goal term objects are passed to call/N, once/1 and findall/3 three times in a row. Unbound variables inside a '
@@ -42,7 +42,8 @@ SUPPORT += [
     (F('wd6', *([C(i) for i in range(1, 5)] + [C(1), A('a')])), None),
     (F('wd6', *([C(i) for i in range(1, 5)] + [C(2), A('c')])), None),
 ]
-FACTS = [(F('d', C(1)), True), (F('d', C(2)), True)]
+FACTS = [(F('d', C(1)), True), (F('d', C(2)), True),
+         (F('r', C(0), A('z')), True)]      # r/2 has compiled clauses AND a dynamic fact (facts come first)
 GOALS = [A('n0'), A('n1'), A('n2'), F('z1', X), F('o', X), F('m', X), F('d', X), F('u', X), F('r', X, Y), F('r', C(2), Y),
          F('m', C(2)), F('w', X, Y)]
 TEMPLATES = [X, F('f', X, Y), A('a'), L([X], Y), Y, L([X, Y])]
